@@ -305,6 +305,17 @@ class World:
         self.writer_ready = False
         self.unique_name_collisions = 0
 
+        # provenance: which real function performed which link operation
+        self.hist = {}             # cname -> [dict(ev, where, by)]
+        self.ctx_actor = None
+        self.ctx_what = None
+        self.in_sync = 0
+        self.in_terminate = 0
+        self.in_configure = 0
+        self.cur_tomb_origin = None
+        self.tomb_origin = {}      # tombstone path -> container that wrote it
+        self._nested_fs = 0
+
         # supervision model
         self.sup = {}              # cname -> dict(alive)
         self.tombstones = []       # paths in creation order
@@ -425,7 +436,8 @@ class World:
         if rec is None:
             self.containers[cname] = {
                 'inst': inst, 'gen': gen, 'configures': 1, 'finished': None,
-                'had_running': False, 'failed': False}
+                'had_running': False, 'failed': False,
+                'last_configure': self._by(cname)}
         else:
             if rec['inst'] != inst or rec['gen'] != gen:
                 self.fail('C13:container-name-reused-across-generations',
@@ -433,6 +445,7 @@ class World:
                           'container %s, which is the container of '
                           'generation %s' % (inst, gen, cname, rec['gen']))
             rec['configures'] += 1
+            rec['last_configure'] = self._by(cname)
             self.probes['reconfigured_existing_dir'] += 1
         self.probes['configures'] += 1
         self.log.ev('configure', inst, gen, cname)
@@ -515,6 +528,7 @@ class World:
         if not os.path.exists(path):
             io.open(path, 'wb').close()
             self.tombstones.append(path)
+            self.tomb_origin[path] = cname
         self.probes['tombstones_written'] += 1
         self.log.ev('tombstone', name)
 
@@ -526,19 +540,103 @@ class World:
                 not os.path.basename(args[0]).startswith('.') and \
                 not (self.writer_ready and self.mgr_ready_evt):
             self.probes['events_ignored_inactive'] += 1
+        saved = (self.ctx_actor, self.ctx_what)
+        self.ctx_actor, self.ctx_what = actor, what
         try:
             return func(*args)
         finally:
+            self.ctx_actor, self.ctx_what = saved
             self.after_handler(actor, what)
+
+    # -- the link-operation seam (treadmill.fs.replace / symlink_safe) --------
+    def _by(self, cname):
+        """Label of the real function (and its context) acting right now."""
+        actor = self.ctx_actor
+        if actor == 'mgr':
+            if self.in_terminate:
+                func = 'terminate'
+            elif self.in_configure:
+                func = 'configure'
+            elif self.in_sync:
+                return 'sync'
+            else:
+                return 'other'
+            if self.in_sync:
+                return func + '-in-sync'
+            return '%s-on-%s-event' % (func, self.ctx_what)
+        if actor == 'monitor':
+            origin = self.cur_tomb_origin
+            if origin is None:
+                return 'other'
+            if origin == cname:
+                return 'tombstone-of-own-container'
+            r_o = self.containers.get(origin)
+            r_c = self.containers.get(cname)
+            if r_o and r_c and r_o['inst'] == r_c['inst'] and \
+                    r_o['gen'] < r_c['gen']:
+                return 'tombstone-of-older-generation'
+            return 'tombstone-of-other-container'
+        return actor or 'other'
+
+    def _link_kind(self, path):
+        parent = os.path.dirname(path)
+        if parent == self.tm_env.running_dir:
+            return 'running'
+        if parent == self.tm_env.cleanup_dir:
+            return 'cleanup'
+        return None
+
+    @staticmethod
+    def _link_target(path):
+        try:
+            return os.path.basename(os.readlink(path))
+        except OSError:
+            return None
+
+    def _note(self, cname, event, where, by=None):
+        self.hist.setdefault(cname, []).append(
+            {'ev': event, 'where': where,
+             'by': by if by is not None else self._by(cname)})
+
+    def fs_symlink_safe(self, link, target):
+        kind = self._link_kind(link)
+        prev = self._link_target(link) if kind else None
+        self._nested_fs += 1
+        try:
+            ret = _REAL_SYMLINK_SAFE(link, target)
+        finally:
+            self._nested_fs -= 1
+        if kind:
+            cname = os.path.basename(target)
+            self._note(cname, 'link', kind)
+            if prev is not None and prev != cname:
+                self._note(prev, 'overwritten', kind, self._by(cname))
+        return ret
+
+    def fs_replace(self, path_from, path_to):
+        if self._nested_fs:
+            return _REAL_REPLACE(path_from, path_to)
+        skind = self._link_kind(path_from)
+        dkind = self._link_kind(path_to)
+        moved = self._link_target(path_from) if skind else None
+        prev = self._link_target(path_to) if dkind else None
+        ret = _REAL_REPLACE(path_from, path_to)
+        if moved is not None:
+            self._note(moved, 'unlink', skind)
+            if dkind:
+                self._note(moved, 'link', dkind)
+                if prev is not None and prev != moved:
+                    self._note(prev, 'overwritten', dkind, self._by(moved))
+        return ret
 
     def after_handler(self, actor, what):
         env = self.tm_env
         old = self.links
         new = self._read_links()
         self._reconcile_cache()
-        bad = nodecheck.finished_restarted(old, new, env.apps_dir)
+        bad = nodecheck.finished_restarted(old, new, env.apps_dir, self.hist)
         if bad is None:
-            bad = nodecheck.two_links(new, env.apps_dir)
+            bad = nodecheck.two_links(new, env.apps_dir, self.hist)
         if bad is not None:
             self.fail(bad[0], '%s (after %s %s)' % (bad[1], actor, what))
         self._sync_finished_truth()
@@ -614,19 +712,20 @@ class World:
         self.log.ev('sync-end')
         made = [n for (k, n) in links if k == 'cleanup' and (k, n) not in old]
         self.probes['sync_made_cleanup_link'] += len(made)
-        bad = nodecheck.finished_restarted(old, links, env.apps_dir)
+        hist = self.hist
+        bad = nodecheck.finished_restarted(old, links, env.apps_dir, hist)
         if bad is None:
             bad = nodecheck.disturbed(unchanged, links, self.cache,
                                       self.containers, env.apps_dir,
-                                      'at-sync')
+                                      'at-sync', hist)
         if bad is None:
-            bad = nodecheck.two_links(links, env.apps_dir)
+            bad = nodecheck.two_links(links, env.apps_dir, hist)
         if bad is None:
             bad = nodecheck.follow(links, self.cache, self.containers,
-                                   self.failed, 'at-sync')
+                                   self.failed, 'at-sync', hist)
         if bad is None:
             bad = nodecheck.uncleaned(links, self.cache, self.containers,
-                                      env.apps_dir, False, 'at-sync')
+                                      env.apps_dir, False, 'at-sync', hist)
         self.check(bad)
         self.sync_unchanged = nodecheck.unchanged_set(
             links, self.cache, self.containers, env.apps_dir)
@@ -636,15 +735,16 @@ class World:
         env = self.tm_env
         self.probes['settled_checks'] += 1
         links = self.links
+        hist = self.hist
         bad = nodecheck.follow(links, self.cache, self.containers,
-                               self.failed, 'settled')
+                               self.failed, 'settled', hist)
         if bad is None:
             bad = nodecheck.uncleaned(links, self.cache, self.containers,
-                                      env.apps_dir, True, 'settled')
+                                      env.apps_dir, True, 'settled', hist)
         if bad is None and self.sync_unchanged is not None:
             bad = nodecheck.disturbed(self.sync_unchanged, links, self.cache,
                                       self.containers, env.apps_dir,
-                                      'settled')
+                                      'settled', hist)
         self.check(bad)
         self.log.ev('settled')
 
@@ -689,7 +789,8 @@ class World:
             self._mgr_died('%s in %s' % (type(err).__name__,
                                          '>'.join(where)))
             if '_synchronize' in where:
-                self.fail('C13:synchronize-raises:%s' % type(err).__name__,
+                self.fail('C13:synchronize-raises:%s:in-%s' % (
+                    type(err).__name__, where[-1].lstrip('_')),
                           '_synchronize raised %r (%s:%s)' % (
                               err, os.path.basename(tback[-1].filename),
                               tback[-1].lineno))
@@ -881,7 +982,11 @@ class World:
             for name in sorted(os.listdir(path)):
                 full = os.path.join(path, name)
                 if os.path.islink(full) or not os.path.isdir(full):
+                    kind = self._link_kind(full)
+                    target = self._link_target(full) if kind else None
                     os.unlink(full)
+                    if target is not None:
+                        self._note(target, 'unlink', kind, 'node-restart')
         self.sup.clear()
         self.tombstones = []
         self.mon._tombstones.clear()
@@ -939,6 +1044,7 @@ class World:
             mon._on_created(path, self.h_cleanup)
         for path, handler, data in list(mon._tombstones):
             self.probes['tombstones_processed'] += 1
+            self.cur_tomb_origin = self.tomb_origin.get(path)
             try:
                 done = self.handler('monitor', 'container-cleanup',
                                     handler.execute, data)
@@ -949,6 +1055,8 @@ class World:
                 self.log.ev('monitor-died', type(err).__name__)
                 self.tombstones.append(path)
                 continue
+            finally:
+                self.cur_tomb_origin = None
             if done:
                 fs.rm_safe(path)
         mon._tombstones.clear()
@@ -1307,6 +1415,8 @@ _REAL_SYNC = appcfgmgr.AppCfgMgr._synchronize
 _REAL_FIRST_SYNC = appcfgmgr.AppCfgMgr._first_sync
 _REAL_TERMINATE = appcfgmgr.AppCfgMgr._terminate
 _REAL_CONFIGURE = appcfgmgr.AppCfgMgr._configure
+_REAL_REPLACE = fs.replace
+_REAL_SYMLINK_SAFE = fs.symlink_safe
 
 
 class NodeSim(enginemod.Engine):
@@ -1419,6 +1529,8 @@ class NodeSim(enginemod.Engine):
         patches.set(templates, 'jinja2', _JINJA)
         patches.set(utils, 'sys_exit', _sys_exit)
         patches.set(fs, 'tempfile', _DetTempfile())
+        patches.set(fs, 'replace', world.fs_replace)
+        patches.set(fs, 'symlink_safe', world.fs_symlink_safe)
         patches.set(appcfg, 'os',
                     fsseam.SeamOS(seam, overrides={'stat': world.stat}))
         patches.set(appcfgmgr, 'glob', fsseam.SeamGlob(seam))
@@ -1533,7 +1645,11 @@ def _get_runtime(runtime_name, tm_env, container_dir, param=None):
 def _hooked_sync(mgr):
     world = _CURRENT[0]
     unchanged = world.pre_sync()
-    ret = _REAL_SYNC(mgr)
+    world.in_sync += 1
+    try:
+        ret = _REAL_SYNC(mgr)
+    finally:
+        world.in_sync -= 1
     world.post_sync(unchanged)
     return ret
 
@@ -1549,7 +1665,11 @@ def _hooked_configure(mgr, instance_name):
     world = _CURRENT[0]
     ent = world.cache.get(instance_name)
     gen = ent['gen'] if ent is not None else None
-    done = _REAL_CONFIGURE(mgr, instance_name)
+    world.in_configure += 1
+    try:
+        done = _REAL_CONFIGURE(mgr, instance_name)
+    finally:
+        world.in_configure -= 1
     if not done:
         for cname in sorted(world.containers):
             rec = world.containers[cname]
@@ -1564,7 +1684,11 @@ def _hooked_terminate(mgr, instance_name):
     world = _CURRENT[0]
     world.probes['terminates'] += 1
     world.log.ev('terminate', instance_name)
-    return _REAL_TERMINATE(mgr, instance_name)
+    world.in_terminate += 1
+    try:
+        return _REAL_TERMINATE(mgr, instance_name)
+    finally:
+        world.in_terminate -= 1
 
 
 ENGINE = NodeSim()
